@@ -545,3 +545,176 @@ Proof.
     exact (mom_prim_3d_integral Cx Cy Cz o sa sb ca cb al be (Pa _ Ha) (Pb _ Hb)).
 Qed.
 End Blocks.
+
+(* ------------------------------------------------------------------ *)
+(* 7. differential operators applied to the CONTRACTED function (linearity of Derive_n over the
+      finite contraction sum, proved for these smooth functions) *)
+(* ------------------------------------------------------------------ *)
+(* a function all of whose derivatives exist *)
+Definition smooth (a : R -> R) : Prop :=
+  forall j x, is_derive (Derive_n a j) x (Derive_n a (S j) x).
+
+Lemma smooth_cg1 be B j : smooth (cg1 be B j).
+Proof.
+  intros k x. pose proof (cg1_is_derive_n be B j (S k) x) as H. cbn [is_derive_n] in H.
+  rewrite (cg1_Derive_n be B j (S k) x). exact H.
+Qed.
+
+Lemma smooth_scal_r a w : smooth a -> smooth (fun t => a t * w).
+Proof.
+  intros Ha k x. rewrite Derive_n_scal_r.
+  apply (is_derive_ext (fun t => Derive_n a k t * w)); [intro t; symmetry; apply Derive_n_scal_r|].
+  apply (is_derive_ext (fun t => w * Derive_n a k t)); [intro t; apply Rmult_comm|].
+  rewrite (Rmult_comm _ w). apply (is_derive_scal (Derive_n a k) x w). apply Ha.
+Qed.
+
+Lemma smooth_ext a b : (forall t, a t = b t) -> smooth a -> smooth b.
+Proof.
+  intros E Ha k x. rewrite <- (Derive_n_ext a b (S k) x E).
+  apply (is_derive_ext (Derive_n a k)); [intro t; apply Derive_n_ext, E | apply Ha].
+Qed.
+
+Lemma is_derive_fsum n (c : nat -> R) (h : nat -> R -> R) (d : nat -> R) x :
+  (forall i, is_derive (h i) x (d i)) ->
+  is_derive (fun t => fsumR (Tables.mk n (fun i => c i * h i t))) x (fsumR (Tables.mk n (fun i => c i * d i))).
+Proof.
+  intro H. induction n as [|n IH].
+  - apply (is_derive_const (0 : R)).
+  - rewrite fsumR_S.
+    apply (is_derive_ext (fun t => fsumR (Tables.mk n (fun i => c i * h i t)) + c n * h n t));
+      [intro t; symmetry; apply fsumR_S|].
+    apply (is_derive_plus (fun t => fsumR (Tables.mk n (fun i => c i * h i t))) (fun t => c n * h n t));
+      [exact IH | apply (is_derive_scal (h n) x (c n)); apply H].
+Qed.
+
+Lemma Derive_n_fsum n (c : nat -> R) (g : nat -> R -> R) : (forall i, smooth (g i)) ->
+  forall k x, Derive_n (fun t => fsumR (Tables.mk n (fun i => c i * g i t))) k x
+              = fsumR (Tables.mk n (fun i => c i * Derive_n (g i) k x)).
+Proof.
+  intro Hs. induction k as [|k IH]; intro x; [reflexivity|].
+  cbn [Derive_n]. rewrite (Derive_ext _ _ x IH). apply is_derive_unique.
+  apply (is_derive_fsum n c (fun i t => Derive_n (g i) k t)). intro i. apply Hs.
+Qed.
+
+Lemma fsumR_ext n (f g : nat -> R) : (forall i, f i = g i) -> fsumR (Tables.mk n f) = fsumR (Tables.mk n g).
+Proof. intro H. apply fsum_mk_ext. intros i _. apply H. Qed.
+
+(* every mixed partial derivative of the contracted function is the contraction of the
+   partial derivatives of the primitives *)
+Theorem pd3_cfun (s : shell R) (m : nat) (c : Shell.comp) (ox oy oz : nat) (x y z : R) :
+  pd3 ox oy oz (cfun s m c) x y z
+  = fsumR (Tables.mk (length (s_exps s)) (fun k =>
+      cw s m c k * pd3 ox oy oz (sprim s (nth k (s_exps s) 0) c) x y z)).
+Proof.
+  set (n := length (s_exps s)).
+  set (gx := fun k => cg1 (nth k (s_exps s) 0) (s_x s) (cx c)).
+  set (gy := fun k => cg1 (nth k (s_exps s) 0) (s_y s) (cy c)).
+  set (gz := fun k => cg1 (nth k (s_exps s) 0) (s_z s) (cz c)).
+  transitivity (fsumR (Tables.mk n (fun k => cw s m c k *
+                  (Derive_n (gx k) ox x * Derive_n (gy k) oy y * Derive_n (gz k) oz z)))).
+  2:{ apply fsumR_ext. intro k. unfold sprim. now rewrite pd3_cprim. }
+  unfold pd3.
+  (* z *)
+  assert (Ez : forall x' y', Derive_n (fun z' => cfun s m c x' y' z') oz z
+                = fsumR (Tables.mk n (fun k => cw s m c k * (gx k x' * gy k y' * Derive_n (gz k) oz z)))).
+  { intros x' y'.
+    rewrite (Derive_n_ext _ (fun z' => fsumR (Tables.mk n (fun k => cw s m c k * (gz k z' * (gx k x' * gy k y'))))) oz z).
+    - rewrite (Derive_n_fsum n (cw s m c) (fun k z' => gz k z' * (gx k x' * gy k y'))).
+      + apply fsumR_ext. intro k. rewrite Derive_n_scal_r. ring.
+      + intro k. apply smooth_scal_r, smooth_cg1.
+    - intro z'. unfold cfun. apply fsumR_ext. intro k. unfold sprim. rewrite cprim_split. unfold gx, gy, gz. ring. }
+  (* y *)
+  assert (Ey : forall x', Derive_n (fun y' => Derive_n (fun z' => cfun s m c x' y' z') oz z) oy y
+                = fsumR (Tables.mk n (fun k => cw s m c k * (gx k x' * Derive_n (gy k) oy y * Derive_n (gz k) oz z)))).
+  { intro x'.
+    rewrite (Derive_n_ext _ (fun y' => fsumR (Tables.mk n (fun k => cw s m c k
+                 * (gy k y' * (gx k x' * Derive_n (gz k) oz z))))) oy y).
+    - rewrite (Derive_n_fsum n (cw s m c) (fun k y' => gy k y' * (gx k x' * Derive_n (gz k) oz z))).
+      + apply fsumR_ext. intro k. rewrite Derive_n_scal_r. ring.
+      + intro k. apply smooth_scal_r, smooth_cg1.
+    - intro y'. rewrite Ez. apply fsumR_ext. intro k. ring. }
+  (* x *)
+  rewrite (Derive_n_ext _ (fun x' => fsumR (Tables.mk n (fun k => cw s m c k
+               * (gx k x' * (Derive_n (gy k) oy y * Derive_n (gz k) oz z))))) ox x).
+  - rewrite (Derive_n_fsum n (cw s m c) (fun k x' => gx k x' * (Derive_n (gy k) oy y * Derive_n (gz k) oz z))).
+    + apply fsumR_ext. intro k. rewrite Derive_n_scal_r. ring.
+    + intro k. apply smooth_scal_r, smooth_cg1.
+  - intro x'. rewrite Ey. apply fsumR_ext. intro k. ring.
+Qed.
+
+Lemma fsumR_prod n m (f g : nat -> R) :
+  fsumR (Tables.mk n f) * fsumR (Tables.mk m g)
+  = fsumR (Tables.mk n (fun i => fsumR (Tables.mk m (fun j => f i * g j)))).
+Proof.
+  change (fmul RK (fsumR (Tables.mk n f)) (fsumR (Tables.mk m g)) = fsumR (Tables.mk n (fun i => fsumR (Tables.mk m (fun j => fmul RK (f i) (g j)))))).
+  rewrite (fsum_mk_scale_r RK RK_field). apply fsum_mk_ext. intros i _.
+  now rewrite (fsum_mk_scale_l RK RK_field).
+Qed.
+
+(* any operator that is linear over the contraction sum of the right function *)
+Theorem contracted_op_integral (sa sb : shell R) (ca cb : Shell.comp) (ma mb : nat)
+        (Lop : (R -> R -> R -> R) -> R -> R -> R -> R) (prim : R -> R -> R) :
+  (forall x y z, Lop (cfun sb mb cb) x y z
+                 = fsumR (Tables.mk (length (s_exps sb)) (fun kb =>
+                     cw sb mb cb kb * Lop (sprim sb (nth kb (s_exps sb) 0) cb) x y z))) ->
+  (forall al be, In al (s_exps sa) -> In be (s_exps sb) ->
+     gint3 (fun x y z => sprim sa al ca x y z * Lop (sprim sb be cb) x y z) (prim al be)) ->
+  gint3 (fun x y z => cfun sa ma ca x y z * Lop (cfun sb mb cb) x y z)
+        (contracted RK sa sb ca cb ma mb prim).
+Proof.
+  intros Hlin H.
+  refine (gint3_ext _ _ _ _ _ eq_refl
+            (contracted_integral sa sb ca cb ma mb
+               (fun al be x y z => sprim sa al ca x y z * Lop (sprim sb be cb) x y z) prim H)).
+  intros x y z. cbv beta. rewrite Hlin. unfold cfun at 1. rewrite fsumR_prod.
+  apply fsumR_ext. intro ka. apply fsumR_ext. intro kb. ring.
+Qed.
+
+Section DiffBlocks.
+Variables (sa sb : shell R) (ma ia mb ib : nat).
+Hypothesis Wa : wf_shell sa.
+Hypothesis Wb : wf_shell sb.
+Hypothesis Pa : pos_exps3 sa.
+Hypothesis Pb : pos_exps3 sb.
+Hypothesis Hma : (ma < nseg sa)%nat.
+Hypothesis Hia : (ia < length (comps_of sa))%nat.
+Hypothesis Hmb : (mb < nseg sb)%nat.
+Hypothesis Hib : (ib < length (comps_of sb))%nat.
+Let ca := nth ia (comps_of sa) (0, 0, 0)%nat.
+Let cb := nth ib (comps_of sb) (0, 0, 0)%nat.
+
+(* _compute_differential_operator_integrals, every order: the entry IS the iterated integral of
+   chi_a times the mixed partial derivative of chi_b *)
+Theorem diffop_block_is_integral (orders : list Shell.comp) (d : nat) : (d < length orders)%nat ->
+  let o := nth d orders (0, 0, 0)%nat in
+  gint3 (fun x y z => cfun sa ma ca x y z * pd3 (cx o) (cy o) (cz o) (cfun sb mb cb) x y z)
+        (Overlap.nth4 RK ma ia mb ib (nth d (diffop_block RK orders sa sb) [])).
+Proof.
+  intros Hd o.
+  rewrite (diffop_block_correct RK RK_field fapx_id_R two_neq_0_R orders sa sb Wa Wb
+             (exps_ok_pos_R sa sb Pa Pb) d ma ia mb ib Hd Hma Hia Hmb Hib).
+  fold ca cb o.
+  apply (contracted_op_integral sa sb ca cb ma mb (pd3 (cx o) (cy o) (cz o))).
+  - intros x y z. apply pd3_cfun.
+  - intros al be Ha Hb. exact (dprim_3d_integral o sa sb ca cb al be (Pa _ Ha) (Pb _ Hb)).
+Qed.
+
+(* kinetic energy: the entry IS the iterated integral of chi_a (-1/2 Laplacian) chi_b *)
+Theorem kinetic_block_is_integral :
+  gint3 (fun x y z => cfun sa ma ca x y z * (- (1 / 2) * lap3 (cfun sb mb cb) x y z))
+        (Overlap.nth4 RK ma ia mb ib (kinetic_block RK sa sb)).
+Proof.
+  rewrite (kinetic_block_correct RK RK_field fapx_id_R two_neq_0_R sa sb ma ia mb ib Wa Wb
+             (exps_ok_pos_R sa sb Pa Pb) Hma Hia Hmb Hib).
+  fold ca cb.
+  apply (contracted_op_integral sa sb ca cb ma mb (fun G x y z => - (1 / 2) * lap3 G x y z)).
+  - intros x y z. unfold lap3. rewrite !pd3_cfun.
+    change (fsumR (Tables.mk ?n ?f) + fsumR (Tables.mk ?n ?g) + fsumR (Tables.mk ?n ?h))
+      with (fadd RK (fadd RK (fsumR (Tables.mk n f)) (fsumR (Tables.mk n g))) (fsumR (Tables.mk n h))).
+    rewrite !(fsum_mk_add RK RK_field).
+    change (- (1 / 2) * fsumR ?l) with (fmul RK (- (1 / 2)) (fsumR l)).
+    rewrite (fsum_mk_scale_l RK RK_field). apply fsumR_ext. intro k.
+    change (fmul RK) with Rmult. change (fadd RK) with Rplus. ring.
+  - intros al be Ha Hb. exact (kinetic_prim_3d_integral sa sb ca cb al be (Pa _ Ha) (Pb _ Hb)).
+Qed.
+End DiffBlocks.
